@@ -13,15 +13,27 @@
                    class of private claim names, two-field mutations, full products; "csCc": the requests of
                    finding KF_CsChunkedCipher, kept apart from all other sets) and print each case once;
                    the invariant checked is that the verdict function is total and, for
-                   single-field mutations of a valid credential, what the statement demands. *)
+                   single-field mutations of a valid credential, what the statement demands.
+   Mode = "csOff": consistently signed requests whose timestamp lies s*m*2^k + j*Jit seconds from the
+                   server clock, for every k in 0..63 (Gates!Offs).
+   Mode = "csWp" : the response writer machine (Gates Part 3b).  Every program of the handler over its
+                   reused buffer up to MaxOps steps; invariant WriterContract: the buffering writer
+                   holds exactly what was passed to it after every step.  The same run prints each
+                   program that writes data as a case (a valid plain / encrypted request whose handler
+                   answers with that program).
+   Mode = "wire" : every server wiring (Gates Part 4) x gate declaration x a core set of credentials
+                   (valid ones and the principal invalid ones; for a route that declares both gates the
+                   product of the two); invariant Wired: the chain bindRoute composes contains every
+                   declared gate.  "wireList": the wirings alone (the other case sets are driven
+                   through the engine under each of them in turn). *)
 EXTENDS Gates, Json
 \* (TLC evaluates constant definitions eagerly at start-up: each large case set below is
 \*  guarded by the Mode that uses it so that a run only pays for its own set.)
 
 CONSTANTS MaxOps, Emit, Mode, Size     \* Size: "quick" | "thorough" ("tiny": the sequence tokens only)
 
-VARIABLES trail, g
-mvars == <<prevCfg, cnt, now, resetAt, resp, trail, g>>
+VARIABLES trail, g, ws     \* ws: the writer machine's state (Mode "csWp")
+mvars == <<prevCfg, cnt, now, resetAt, resp, wire, trail, g, ws>>
 
 (* ---------------------------- JWT case sets ---------------------------- *)
 JBase == [alg |-> "HS256", key |-> "cur", exp |-> "future", nbf |-> "past", iat |-> "past",
@@ -75,7 +87,7 @@ JCases == CASE Mode = "jwtMut"  -> JMutCases
 CBase == [hdr |-> "present", fp |-> "A", encTo |-> "A", swf |-> "ok", type |-> "plain", ts |-> "in",
           method |-> "POST", path |-> "p0", query |-> "q0", body |-> "b0",
           sform |-> "ok", sts |-> "in", smethod |-> "POST", spath |-> "p0", squery |-> "q0", sbody |-> "b0",
-          plen |-> 17, rlen |-> 16, chunks |-> 1, xfer |-> "sized"]
+          off |-> NoOff, plen |-> 17, rlen |-> 16, chunks |-> 1, wp |-> <<>>, xfer |-> "sized"]
 
 CMk(fp, ty, ts, m, q, b) ==
   [CBase EXCEPT !.fp = fp, !.encTo = fp, !.type = ty, !.ts = ts, !.sts = ts, !.method = m, !.smethod = m,
@@ -139,7 +151,7 @@ CMut2Cases == IF Mode = "csMut2"
   ELSE {}
 \* the encryption round trip: every request payload length x response payload length
 CRtCases ==
-  IF Mode = "csRt"
+  IF Mode \in {"csRt", "csRtOff"}
   THEN {[CMk(fp, "enc", "in", m, "q0", "b0") EXCEPT !.plen = pl, !.rlen = rl, !.chunks = ch] :
        fp \in {"A", "B"}, m \in IF Size = "quick" THEN {"POST"} ELSE VerifiedMethods, pl \in Lens, rl \in Lens,
        ch \in {1, 2}}
@@ -154,11 +166,48 @@ CCcCases ==
              fp \in {"A", "B"}, pl \in Lens, rl \in Lens}
   ELSE {}
 
+\* timestamps anywhere on the integer line, consistently signed
+COffs == IF Size = "quick" THEN [s : {-1, 1}, m : {1}, k : 0..63, j : -1..1] \cup [s : {-1, 1}, m : {3}, k : 52..62, j : {0}]
+         ELSE [s : {-1, 1}, m : {1, 3, 5}, k : 0..63, j : -1..1] \cup [s : {1}, m : {0}, k : {0}, j : -1..1]
+COffBases == IF Size = "quick" THEN {CMk("A", "plain", "off", "POST", "q0", "b0")}
+             ELSE {CMk("A", "plain", "off", "POST", "q0", "b0"), CMk("B", "enc", "off", "GET", "none", "none"),
+                   CChunked(CMk("A", "plain", "off", "PUT", "q0", "b0"))}
+COffCases == IF Mode \in {"csOff", "csRtOff"} THEN {[b EXCEPT !.off = o] : b \in COffBases, o \in COffs} ELSE {}
+
+\* bases of the write programs: the piece the handler's buffer holds is rlen bytes long
+CWpBases ==
+  IF Mode = "csWp"
+  THEN {[CMk(fp, ty, "in", "POST", "q0", "b0") EXCEPT !.rlen = rl] :
+           fp \in {"A"}, ty \in {"plain", "enc"}, rl \in IF Size = "quick" THEN {17, 4096} ELSE {1, 16, 4096}}
+  ELSE {}
+
 CCases == CASE Mode = "csMut"  -> CMutCases
             [] Mode = "csMut2" -> CMut2Cases
             [] Mode = "csRt"   -> CRtCases
             [] Mode = "csCc"   -> CCcCases
+            [] Mode = "csOff"  -> COffCases
+            [] Mode = "csRtOff" -> CRtCases \cup COffCases      \* the two sets in one run (quick tier)
+            [] Mode = "csWp"   -> CWpBases
             [] OTHER -> {}
+
+(* ------------------------------ wiring case sets ----------------------- *)
+WJwtCore == {JBase, [JBase EXCEPT !.key = "prev"], [JBase EXCEPT !.key = "other"], [JBase EXCEPT !.shape = "missing"],
+             [JBase EXCEPT !.exp = "past"], [JBase EXCEPT !.alg = "none", !.key = "empty"]}
+WCsCore  == {CBase, CMk("B", "enc", "in", "PUT", "none", "b0"), CMk("A", "plain", "in", "GET", "q0", "none"),
+             [CBase EXCEPT !.hdr = "missing"], [CBase EXCEPT !.sform = "flipBit"], [CBase EXCEPT !.ts = "old", !.sts = "old"],
+             [CBase EXCEPT !.body = "b1"], [CBase EXCEPT !.fp = "unknown"],
+             [CMk("A", "enc", "in", "POST", "q0", "b0") EXCEPT !.wp = <<"fill", "write", "fill", "write">>]}
+WBothJwt == {JBase, [JBase EXCEPT !.key = "other"], [JBase EXCEPT !.shape = "missing"], [JBase EXCEPT !.exp = "past"]}
+WBothCs  == {CBase, CMk("A", "enc", "in", "POST", "q0", "b0"), [CBase EXCEPT !.hdr = "missing"],
+             [CBase EXCEPT !.sform = "otherKey"], [CBase EXCEPT !.ts = "ahead", !.sts = "ahead"]}
+WCase(c, d, p, t, r) == [wire |-> WithDecl(c, d), prev |-> p, tok |-> t, req |-> r]
+WireCases ==
+  IF Mode = "wire"
+  THEN {WCase(c, "jwt", p, t, CBase) : c \in WireCfgs, p \in BOOLEAN, t \in WJwtCore}
+       \cup {WCase(c, "cs", FALSE, JBase, r) : c \in WireCfgs, r \in WCsCore}
+       \cup {WCase(c, "both", p, t, r) : c \in WireCfgs, p \in {TRUE}, t \in WBothJwt, r \in WBothCs}
+  ELSE IF Mode = "wireList" THEN WireCfgs
+  ELSE {}
 
 (* ------------------------------- the machine --------------------------- *)
 SeqTokens == {JBase, [JBase EXCEPT !.key = "prev"], [JBase EXCEPT !.key = "other"], [JBase EXCEPT !.key = "empty"],
@@ -167,9 +216,9 @@ SeqTokens == {JBase, [JBase EXCEPT !.key = "prev"], [JBase EXCEPT !.key = "other
 NoCase == [none |-> TRUE]
 
 MInit ==
-  /\ trail = <<>>
+  /\ trail = <<>> /\ ws = WInit
   /\ IF Mode = "seq" THEN g = NoCase /\ \E p \in BOOLEAN : GInit(p)
-     ELSE GInit(TRUE) /\ g \in JCases \cup CCases
+     ELSE GInit(TRUE) /\ g \in JCases \cup CCases \cup WireCases
 
 SeqNext ==
   /\ Mode = "seq" /\ Len(trail) < MaxOps
@@ -177,9 +226,15 @@ SeqNext ==
           /\ JwtReq(t, ImplAccepts(t, prevCfg, cnt), 200)
           /\ trail' = Append(trail, [op |-> "jwt", tok |-> t])
      \/ \E d \in {1, 25} : Tick(d) /\ trail' = Append(trail, [op |-> "tick", d |-> d])
-  /\ UNCHANGED g
+  /\ UNCHANGED <<g, ws>>
 
-MSpec == MInit /\ [][SeqNext]_mvars
+\* the handler of case g performs one more step of its write program
+WpNext ==
+  /\ Mode = "csWp" /\ Len(trail) < MaxOps
+  /\ \E op \in WOps : ws' = WStep(ws, op) /\ trail' = Append(trail, op)
+  /\ UNCHANGED <<g, prevCfg, cnt, now, resetAt, resp, wire>>
+
+MSpec == MInit /\ [][SeqNext \/ WpNext]_mvars
 
 (* ------------------------------- invariants ---------------------------- *)
 CheckToks == IF Size = "tiny" THEN SeqTokens ELSE JMutCases \cup SeqTokens
@@ -202,21 +257,37 @@ JwtCaseSane ==
      /\ \A c \in ClaimSets : /\ JwtVerdict([g EXCEPT !.claims = c], TRUE) = JwtVerdict(g, TRUE)
                              /\ (c # "none" => ClassesOf(c) # {} /\ ClassesOf(c) \subseteq NameClasses)
 CsCaseSane ==
-  Mode \in {"csMut", "csMut2", "csRt", "csCc"} =>
+  Mode \in {"csMut", "csMut2", "csRt", "csCc", "csOff", "csRtOff", "csWp"} =>
      /\ CsVerdict(g) \in {"yes", "no", "either"}
-     /\ g \in CValidBases \cup CRtCases \cup CUnverifiedValid => CsVerdict(g) = "yes"
+     /\ g \in CValidBases \cup CRtCases \cup CUnverifiedValid \cup CWpBases => CsVerdict(g) = "yes"
      /\ CsVerdict(g) # "no" => Signed(g) = Actual(g)
+     \* timestamps on the integer line: beyond 2^21 s nothing passes, next to the clock everything does
+     /\ g.ts = "off" => /\ Mode \in {"csOff", "csRtOff"} /\ g.sts = "off" /\ g.off \in Offs
+                         /\ (g.off.k > 20 /\ g.off.m > 0 => CsVerdict(g) = "no")
+                         /\ (g.off.m = 0 \/ (g.off.k < 8 /\ g.off.m = 1 /\ g.off.j = 0) => CsVerdict(g) = "yes")
      \* how the body length is announced never decides; the finding's cases are in their own set
      /\ \A x \in Xfers : CsVerdict([g EXCEPT !.xfer = x]) = CsVerdict(g)
      /\ ChunkedCipher(g) = (Mode = "csCc")
+
+\* Part 3b: after every step of every program the buffering writer holds what was passed to it
+WriterContract == Mode = "csWp" => WContract(ws) /\ ws = WRun(trail)
+\* Part 4: every wiring puts every declared gate in front of the handler; the verdicts of the core
+\* credentials are what they are under the direct wiring (no verdict reads the wiring)
+Wired == /\ Mode = "wireList" => \A d \in Decls : GateWired(WithDecl(g, d))
+         /\ Mode = "wire" => /\ GateWired(g.wire) /\ g.wire \in Wirings
+                              /\ JwtVerdict(g.tok, g.prev) \in {"yes", "no", "either"} /\ CsVerdict(g.req) \in {"yes", "no", "either"}
+                              /\ g.tok = JBase /\ g.req = CBase => Meet(JwtVerdict(g.tok, g.prev), CsVerdict(g.req)) = "yes"
 
 \* model checking: the operation history is hidden but for its length (one state per parser
 \* state and depth, so the bound on the length cuts every path at the same place);
 \* generation: the history is the state (every sequence is printed)
 View == IF Mode = "seq" THEN (IF Emit THEN <<prevCfg, cnt, now, resetAt, resp, trail>> ELSE <<prevCfg, cnt, now, resetAt, resp, Len(trail)>>)
+        ELSE IF Mode = "csWp" THEN (IF Emit THEN <<g, trail>> ELSE <<g, ws, Len(trail)>>)
         ELSE <<g>>
 PrintCase ==
   Emit => IF Mode = "seq"
             THEN (Len(trail) = MaxOps => PrintT("TRACE " \o ToJson([prev |-> prevCfg, ops |-> trail])))
+          ELSE IF Mode = "csWp"
+            THEN ((\E i \in 1..Len(trail) : WritesData(trail[i])) => PrintT("TRACE " \o ToJson([g EXCEPT !.wp = trail])))
             ELSE PrintT("TRACE " \o ToJson(g))
 =============================================================================
